@@ -376,7 +376,8 @@ def run(repo, rep):
     # ---------------------------------------------------------------- H5
     gsf = repo.func('__init__', '_get_storage_file')
     rep.analysed(gsf)
-    opens = [n for n in ast.walk(gsf.node) if isinstance(n, ast.Call) and norm(n.func) in ('open', 'io.open', 'os.open')]
+    opens = [n for hf in repo.helper_closure(gsf) for n in ast.walk(hf.node)
+             if isinstance(n, ast.Call) and norm(n.func) in ('open', 'io.open', 'os.open')]
     probs = []
     for n in opens:
         mode = repo.try_fold(n.args[1], gsf.module) if len(n.args) > 1 else 'r'
